@@ -188,7 +188,7 @@ func decide(s Src, b *Built, model map[string]*installed, overwrite bool) verdic
 		v.rel = "invalid"
 	}
 	if !cand.Script.MetadataOK() {
-		if cand.Script.Kind == "misnamed" {
+		if cand.Script.Kind == "misnamed" || cand.Script.Kind == "misnamed-case" {
 			return refuse("misnamed-metadata")
 		}
 		return refuse("invalid-metadata")
@@ -389,7 +389,7 @@ func (m *machine) pickName(rt *rapid.T) string {
 func (m *machine) genSrc(rt *rapid.T) Src {
 	s := Src{Name: m.pickName(rt), Marker: fmt.Sprintf("m%d", m.nsrc+1)}
 	s.Kind = rp.Pick(rt, "kind", "file", "dir", "file", "dir", "dir", "dir", "file", "dir", "file", "dir", "dir", "file-nonexec", "file-badname", "missing")
-	s.Meta = rp.Pick(rt, "meta", "ok", "ok", "ok", "ok", "ok", "ok", "ok", "ok", "ok", "ok", "ok", "ok", "misnamed", "badjson", "missing", "exit1", "trailing", "trailing-brace")
+	s.Meta = rp.Pick(rt, "meta", "ok", "ok", "ok", "ok", "ok", "ok", "ok", "ok", "ok", "ok", "ok", "ok", "misnamed", "misnamed-case", "badjson", "missing", "exit1", "trailing", "trailing-brace")
 	switch rp.Pick(rt, "vmode", "pool", "pool", "pool", "pool", "same", "invalid") {
 	case "pool":
 		s.Version = validVersions[rapid.IntRange(0, len(validVersions)-1).Draw(rt, "version")].v
